@@ -714,7 +714,7 @@ fn gen_helper(r: &mut Rng, stream: &str) -> String {
         "emptysome" => { list = Some((*r.pick(&['n', 't', 'f']), vec![])); }
         "noreddatums" => { k = 0; fmt = *r.pick(&["n", "m"]); cm = Cm(vec![]); list = Some(('n', (0..r.range(1, 4)).map(|_| all(r)).collect())); }
         "nored" => { k = 0; fmt = *r.pick(&["n", "m"]); list = None; }
-        "outscope" => { k = 0; if r.chance(1, 2) { fmt = "a"; } else { let l0 = r.below(3); cm = gen_cm(r, &[l0]); list = Some(('n', vec![all(r)])); } }
+        "noredquirk" => { k = 0; if r.chance(1, 2) { fmt = "a"; } else { let l0 = r.below(3); cm = gen_cm(r, &[l0]); list = Some(('n', vec![all(r)])); } }
         "langs" => { let pick = r.below(8); cm = gen_cm(r, &match pick { 0 => vec![], 1 => vec![0], 2 => vec![1], 3 => vec![2], 4 => vec![0, 1], 5 => vec![0, 2], 6 => vec![1, 2], _ => vec![0, 1, 2] }); }
         _ => {}
     }
@@ -932,7 +932,7 @@ fn main() {
         let mut r = Rng::new(seed_from_env() ^ 0xC09C09);
         let mut out = Out::new(&args[2]);
         let scale = if is_thorough() { 10 } else { 1 };
-        let hstreams = ["basic", "basic", "dupdef", "dupindef", "dupindefdec", "emptysome", "noreddatums", "nored", "outscope", "langs", "langs"];
+        let hstreams = ["basic", "basic", "dupdef", "dupindef", "dupindefdec", "emptysome", "noreddatums", "nored", "noredquirk", "langs", "langs"];
         for _ in 0..(40 * scale) { for s in hstreams.iter() {
             let line = gen_helper(&mut r, s);
             let toks: Vec<String> = line.split_whitespace().map(|x| x.to_string()).collect();
